@@ -8,7 +8,8 @@ Read with `ast` from the source of `openpectus.engine.engine` and `openpectus.en
     "command_manager.tick") — the same labels the harness uses for its yield points;
   * yield points *nested* in a sub-call of the tick, where a tick spends its time: `hwl.read_batch` / `hwl.write_batch`
     (found in the bodies of the `Engine` methods the tick calls) and `uod.execute` — the exec function of a UOD
-    command — found in the methods of `CommandManager` reachable from `CommandManager.tick`; emitted as
+    command — found in the methods of `CommandManager` reachable from `CommandManager.tick`, and `interp.subtick`
+    (`PInterpreter.tick` iterating `tick_iterate_subticks`); emitted as
     (inner label, enclosing sub-call of `Engine.tick`), so their lock status is that of the enclosing sub-call;
   * the request entry points = the `Engine` methods that `EngineMessageHandlers` calls on `self.engine`; for each one
     whether its whole body (after the docstring) is `with self._lock:` blocks, and which attributes of `self` it
@@ -176,6 +177,15 @@ def _nested(methods: dict[str, ast.FunctionDef], tick_labels: list[str]) -> list
                         found = True
         if found:
             out.append(("uod.execute", "command_manager.tick"))
+    # the sub-ticks of the interpreter: PInterpreter.tick iterates tick_iterate_subticks
+    if "interpreter.tick" in tick_labels:
+        import openpectus.lang.exec.pinterpreter as PI
+        tree = ast.parse(inspect.getsource(PI))
+        cls = next(n for n in tree.body if isinstance(n, ast.ClassDef) and n.name == "PInterpreter")
+        tick = next((n for n in cls.body if isinstance(n, ast.FunctionDef) and n.name == "tick"), None)
+        if tick is not None and any(isinstance(n, ast.Call) and (_chain(n.func) or [""])[-1] == "tick_iterate_subticks"
+                                    for n in ast.walk(tick)):
+            out.append(("interp.subtick", "interpreter.tick"))
     return out
 
 
